@@ -169,15 +169,19 @@ def report(mod, prop, tier, seed, units, results, extra, t0, origin, args):
     violations = []
     known_hits = []
     rdir = os.path.join(HERE, "replays", prop)
-    if os.path.isdir(rdir) and not args.unit:
+    if os.path.isdir(rdir):
         for fn in os.listdir(rdir):
             os.unlink(os.path.join(rdir, fn))
     seen = set()
+    per_name = {}
     for ob in failed:
         key = (ob["name"], json.dumps(ob.get("model"), sort_keys=True, default=str))
         if key in seen:
             continue
         seen.add(key)
+        per_name[ob["name"]] = per_name.get(ob["name"], 0) + 1
+        if per_name[ob["name"]] > 2:
+            continue            # two counter-models per obligation are kept and replayed
         k = match_known(known, prop, ob)
         if k is not None:
             known_hits.append((k, ob))
